@@ -34,6 +34,7 @@ SHARDS = {'quick': 8, 'thorough': 16}
 BUDGET = {'quick': 75, 'thorough': 1500}
 
 PROFILE = gen.profile(max_depth=4)
+PROFILE_THOROUGH = gen.profile(max_depth=5, max_stmts=10, expr_depth=4)
 
 # --------------------------------------------------------------------------------------------
 # unit level
@@ -107,19 +108,20 @@ def small_jsl(draw):
 
 
 @st.composite
-def jsl_tree(draw, depth):
-    n = draw(st.integers(1, 6))
+def jsl_tree(draw, depth, big=False):
+    n = draw(st.integers(1, 14 if big else 6))
     items = []
     for _ in range(n):
         if depth > 0 and draw(st.integers(0, 3)) == 0:
             items.append(draw(small_jsl()))
         else:
-            items.append(draw(expr_text(draw(st.integers(0, 2)))))
+            items.append(draw(expr_text(draw(st.integers(0, 3 if big else 2)))))
     return {'items': items, 'sep': draw(st.sampled_from(SEPS)), 'separable': draw(st.booleans())}
 
 
 @st.composite
-def unit_cases(draw):
+def unit_cases(draw, big=False):
+    """big (thorough tier): up to 14 items per list, deeper expression texts"""
     mode = draw(st.sampled_from(['f', 'f', 'f', 'f', 'pragma']))
     width = draw(st.sampled_from([132, 132, 132, 90])) if draw(st.booleans()) else draw(st.integers(40, 132))
     # indentation leaves at least 30 columns (no real caller indents beyond the line width)
@@ -131,14 +133,14 @@ def unit_cases(draw):
         tree = {'items': ['!$acc'] + words, 'sep': ' ', 'separable': True}
     elif shape == 0:
         tree = {'items': [' ' * indent, draw(st.sampled_from(['CALL ', 'PRINT *, ', 'x = ', 'IF (', 'a%b(i) = '])),
-                          draw(st.sampled_from(NAMES)), '(', draw(jsl_tree(1)), ')'], 'sep': '', 'separable': True}
+                          draw(st.sampled_from(NAMES)), '(', draw(jsl_tree(1, big)), ')'], 'sep': '', 'separable': True}
     elif shape == 1:
         tree = {'items': [' ' * indent, draw(expr_text(1)), ' = ', draw(expr_text(3))], 'sep': '', 'separable': True}
     elif shape == 2:
-        tree = {'items': [' ' * indent, draw(jsl_tree(1)), ' :: ', draw(jsl_tree(1))], 'sep': '', 'separable': True}
+        tree = {'items': [' ' * indent, draw(jsl_tree(1, big)), ' :: ', draw(jsl_tree(1, big))], 'sep': '', 'separable': True}
     else:
         tree = {'items': [' ' * indent, draw(st.sampled_from(['PURE ', 'ELEMENTAL ', ''])) + 'SUBROUTINE ', draw(st.sampled_from(NAMES)), ' (',
-                          draw(jsl_tree(2)), ')'], 'sep': '', 'separable': True}
+                          draw(jsl_tree(2, big)), ')'], 'sep': '', 'separable': True}
     tree['items'] = [i for i in tree['items'] if i != '']
     return {'unit': tree, 'width': width, 'indent': indent, 'mode': mode}
 
@@ -549,7 +551,7 @@ def run_shard(ctx):
     n_unit, n_prog = ctx.scale(16000, 400000), ctx.scale(200, 4000)
     k = 0
     while k * 400 < n_unit and not ctx.out_of_time():
-        ctx.given(unit_cases(), check_unit, min(400, n_unit - k * 400), label=f'unit{k}')
+        ctx.given(unit_cases(big=ctx.thorough), check_unit, min(400, n_unit - k * 400), label=f'unit{k}')
         k += 1
     ctx.extra['unit_cases_planned'] = n_unit
     if total is not None:
@@ -557,7 +559,8 @@ def run_shard(ctx):
         ctx.budget_exhausted = False
     k = 0
     while k * 5 < n_prog and not ctx.out_of_time():
-        ctx.given(gen_long.cases(PROFILE, where1=where1), check_prog, min(5, n_prog - k * 5), label=f'prog{k}')
+        ctx.given(gen_long.cases(PROFILE_THOROUGH if ctx.thorough else PROFILE, where1=where1), check_prog,
+                  min(5, n_prog - k * 5), label=f'prog{k}')
         k += 1
     ctx.extra['prog_cases_planned'] = n_prog
 
